@@ -140,4 +140,32 @@ theorem add_at_mach (P : Prog) (hwf : opsLt P.nIn P.body) (ins : List Int) (i a 
     xval true P ins (P.nIn + i) = (xval true P ins a + xval true P ins b) % 2 ^ 64 := by
   rw [xval_at true P hwf ins i hi, hop, hs]; rfl
 
+
+/-! ### treating the first `k` ops as inputs (for ops the abstract interpreter cannot bound tightly) -/
+
+/-- the same program with its first `k` variables-by-ops declared as inputs (indices are absolute, so
+    nothing is renumbered) -/
+def dropProg (P : Prog) (k : Nat) : Prog := { P with nIn := P.nIn + k, body := P.body.drop k }
+
+/-- the values of the inputs and of the first `k` ops, in variable order -/
+def prefTrace (mach : Bool) (P : Prog) (k : Nat) (ins : List Int) : List Int :=
+  (exec mach P.signed (P.body.take k) ins.reverse P.nIn).reverse
+
+theorem run_drop (mach : Bool) (P : Prog) (k : Nat) (ins : List Int) (hk : k ≤ P.body.length) :
+    (dropProg P k).run mach (prefTrace mach P k ins) = P.run mach ins := by
+  unfold Prog.run dropProg prefTrace
+  simp only [List.reverse_reverse]
+  have hsplit : P.body = P.body.take k ++ P.body.drop k := (List.take_append_drop k P.body).symm
+  conv_rhs => rw [hsplit, exec_append]
+  have hl : (P.body.take k).length = k := by simp [hk]
+  rw [hl]
+
+theorem outputs_drop (mach : Bool) (P : Prog) (k : Nat) (ins : List Int) (hk : k ≤ P.body.length) :
+    (dropProg P k).outputs mach (prefTrace mach P k ins) = P.outputs mach ins := by
+  unfold Prog.outputs
+  rw [run_drop mach P k ins hk]
+  have : (dropProg P k).nIn + (dropProg P k).body.length = P.nIn + P.body.length := by
+    simp [dropProg]; omega
+  rw [this]; rfl
+
 end C18X
